@@ -128,7 +128,7 @@ func randBytes(r *hx.Rng) []byte {
 	case 2:
 		return r.Bytes(32)
 	case 3:
-		return r.Bytes(128 + r.Intn(8))
+		return r.Bytes(48 + 80*r.Intn(2))
 	}
 	return r.Bytes(r.Intn(12))
 }
